@@ -93,6 +93,12 @@ def reduceAxisType (result : List (List Rat)) (axesType : List String) (axisType
         | _ => .ok (.ranges [rng.map (·.1), rng.map (·.2)])
   else .ok (.points result)
 
+/-- axis types are compared without regard to case, and a `TemporalFrame` calls its type 'TIME' where the documented name is
+'temporal': both spellings name the time axes -/
+def normType (s : String) : String :=
+  let l := s.toLower
+  if l == "time" then "temporal" else l
+
 /-- `WCS.footprint(bounding_box, center, axis_type)`; `f` is the unmasked forward transform -/
 def footprint (f : List Rat → Except Err (List Rat)) (bb own : Option (List (Rat × Rat)))
     (center : Bool) (axesType : List String) (axisType : String) : Except Err FootOut := do
@@ -100,5 +106,10 @@ def footprint (f : List Rat → Except Err (List Rat)) (bb own : Option (List (R
   let verts ← corners box axesType center
   let result ← verts.mapM f
   reduceAxisType result axesType axisType
+
+/-- the same with the axis types as the frames report them and the requested type as the caller spelled it -/
+def footprintRaw (f : List Rat → Except Err (List Rat)) (bb own : Option (List (Rat × Rat)))
+    (center : Bool) (axesTypeRaw : List String) (axisTypeRaw : String) : Except Err FootOut :=
+  footprint f bb own center (axesTypeRaw.map normType) (normType axisTypeRaw)
 
 end Gwcs.Grid
